@@ -87,7 +87,18 @@ Unsupported = base.Unsupported
 dotted, attr_key, attr_var, mangle, coq_type = base.dotted, base.attr_key, base.attr_var, base.mangle, base.coq_type
 mutation_of = base.mutation_of
 
-EXTRA_BUILTINS = ("all", "any", "print", "str", "repr", "type")
+def call_name(func):
+    """the name a call goes to: a dotted name, or `super().m`"""
+    d = dotted(func)
+    if d is not None:
+        return d
+    if isinstance(func, ast.Attribute) and isinstance(func.value, ast.Call) and isinstance(func.value.func, ast.Name) \
+            and func.value.func.id == "super" and not func.value.args and not func.value.keywords:
+        return "super()." + func.attr
+    return None
+
+
+EXTRA_BUILTINS = ("all", "any", "print", "str", "repr", "type", "super")
 
 EFF_HELPERS = {
     "py_outcome": """(* the outcome of a call that can raise a designated exception: a value or the exception *)
@@ -214,16 +225,16 @@ class EffTranslator(base.FnTranslator):
         out = []
         for st in stmts:
             for nd in ast.walk(st):
-                if isinstance(nd, ast.Call) and dotted(nd.func) in self.events and "evlog" not in out:
+                if isinstance(nd, ast.Call) and call_name(nd.func) in self.events and "evlog" not in out:
                     out.append("evlog")
                 if isinstance(nd, ast.For) and self.loop_header(nd) in self.abstract_loops and "evlog" not in out:
                     out.append("evlog")
                 if self.submit and isinstance(nd, ast.Call) and isinstance(nd.func, ast.Call) \
                         and dotted(nd.func.func) == self.submit.get("pool") and "evlog" not in out:
                     out.append("evlog")
-                if isinstance(nd, ast.Call) and dotted(nd.func) in self.effects:
+                if isinstance(nd, ast.Call) and call_name(nd.func) in self.effects:
                     # attributes that an effect assigns (`sets`)
-                    for a in self.effects[dotted(nd.func)].sets:
+                    for a in self.effects[call_name(nd.func)].sets:
                         if attr_var(a) not in out:
                             out.append(attr_var(a))
         return out
@@ -311,7 +322,9 @@ class EffTranslator(base.FnTranslator):
         return code
 
     def call(self, n, env, want):
-        f = dotted(n.func)
+        f = call_name(n.func)
+        if f is not None and f.startswith("super().") and ("super" in env or "super" in self.shadowed_extra):
+            raise self.err("the name super is rebound", n)
         if f in ("all", "any") and f not in env:
             if f in self.shadowed_extra:
                 raise self.err("the module rebinds the builtin %r" % f, n)
@@ -340,6 +353,14 @@ class EffTranslator(base.FnTranslator):
                 raise self.err("effect %s assigns attributes: it can only be called as a statement" % f, n)
             return self.effect_call(n, e, env)
         return super().call(n, env, want)
+
+    def if_join(self, s, cond, rest, env, env_a, env_b, ctx, k):
+        # the base class joins the event log through an `if` when it sees a call of an observable oracle by its dotted
+        # name; `super().m(...)` has none: no join, the general scheme threads the log
+        for nd in ast.walk(s):
+            if isinstance(nd, ast.Call) and dotted(nd.func) is None and call_name(nd.func) in self.effects:
+                raise base._NoJoin()
+        return super().if_join(s, cond, rest, env, env_a, env_b, ctx, k)
 
     def field_node(self, name, field, at):
         nd = ast.parse("%s.%s" % (name, field) if not field.startswith("[") else name + field, mode="eval").body
@@ -464,7 +485,7 @@ class EffTranslator(base.FnTranslator):
             for nd in ast.walk(st):
                 if isinstance(nd, ast.Raise):
                     return True
-                if isinstance(nd, ast.Call) and dotted(nd.func) in self.effects and self.effects[dotted(nd.func)].raises:
+                if isinstance(nd, ast.Call) and call_name(nd.func) in self.effects and self.effects[call_name(nd.func)].raises:
                     return True
         return False
 
@@ -519,7 +540,9 @@ class EffTranslator(base.FnTranslator):
         if isinstance(s, ast.While) and self.hidden_assigned(s.body):
             raise self.err("observable effects inside a while loop", s)
         if isinstance(s, ast.Expr) and isinstance(s.value, ast.Call):
-            f = dotted(s.value.func)
+            f = call_name(s.value.func)
+            if f is not None and f.startswith("super().") and ("super" in env or "super" in self.shadowed_extra):
+                raise self.err("the name super is rebound", s)
             if (f == "print" and "print" not in env) or (f in self.silent and f not in self.effects):
                 if f == "print" and "print" in self.shadowed_extra:
                     raise self.err("the module rebinds the builtin 'print'", s)
@@ -550,8 +573,8 @@ class EffTranslator(base.FnTranslator):
             if isinstance(tgt, (ast.Attribute, ast.Subscript)) and attr_key(tgt) and attr_key(tgt).split(".")[0] in self.owned \
                     and attr_key(tgt) not in [a for a, _ in self.writes]:
                 return self.owned_write(s, tgt, rest, env, ctx, k)
-            if isinstance(tgt, ast.Name) and isinstance(s.value, ast.Call) and dotted(s.value.func) in self.effects \
-                    and self.effects[dotted(s.value.func)].new:
+            if isinstance(tgt, ast.Name) and isinstance(s.value, ast.Call) and call_name(s.value.func) in self.effects \
+                    and self.effects[call_name(s.value.func)].new:
                 # the local owns a new object: field assignments are functional updates until it is used as a value
                 code = super().block(stmts[:1], env, ctx, lambda e: self.block_owned(tgt.id, s, rest, e, ctx, k))
                 return code
@@ -771,8 +794,8 @@ class EffTranslator(base.FnTranslator):
         if base.has_node(s.body, (ast.Return, ast.Break, ast.Raise, ast.Try)) or self.can_raise(s.body):
             raise self.err("abstracted loop that can be left early (return / break / raise)", s)
         for nd in ast.walk(ast.Module(body=s.body, type_ignores=[])):
-            if isinstance(nd, ast.Call) and dotted(nd.func) in self.effects:
-                raise self.err("abstracted loop that calls the effect %s" % dotted(nd.func), nd)
+            if isinstance(nd, ast.Call) and call_name(nd.func) in self.effects:
+                raise self.err("abstracted loop that calls the effect %s" % call_name(nd.func), nd)
         # the body may only assign fields of its loop variable and its own locals
         outer = set(env) - {"evlog"}
         for v in base.assigned_names(s.body):
